@@ -73,6 +73,7 @@ type histRun struct {
 	// maybePending[conn][rid]: a request touching rid may be unanswered
 	maybePending  map[int]map[string]bool
 	reqTarget     map[int]map[uint64]string // call/new requests → target rid
+	driftTag      map[string]string         // "cid rid" → known-finding tag of a counter seen off before
 	stepNo        int
 	callSeq       int
 	closedAt      map[int]int64 // clock when a client was closed
@@ -863,6 +864,13 @@ func (h *histRun) checkQuiescent(final bool) {
 	}
 	cacheSnap := h.g.Svc.VerifCache().VerifSnapshot()
 	now := h.g.Clock.Now()
+	if os.Getenv("VG_SUBDEBUG") != "" {
+		for _, c := range h.g.clientsSnapshot() {
+			if sn, ok := snaps[c.CID]; ok {
+				h.logf("     [subs conn=%d] %s", c.Idx, subsSummary(sn))
+			}
+		}
+	}
 
 	for _, c := range h.g.clientsSnapshot() {
 		rc := h.rcs[c]
@@ -1008,6 +1016,67 @@ func (h *histRun) checkQuiescent(final bool) {
 						Msg: fmt.Sprintf("subscription %s left behind with no direct or indirect use (state=%d refs=%v); all subs: %s", rid, hs.State, hs.Refs, subsSummary(snap))})
 				}
 			}
+			// --- C02 structure: the reference counters the retention decisions
+			// (tryDelete / Unsend / populateResources) are based on must agree
+			// with the reference graph of the connection's subscriptions
+			wantInd := map[string]int{}
+			wantSent := map[string]int{}
+			for _, ps := range snap.Subs {
+				for ref := range ps.Refs {
+					wantInd[ref]++
+					if ps.State == 5 || ps.State == 6 {
+						wantSent[ref]++
+					}
+				}
+			}
+			for rid, hs := range snap.Subs {
+				h.stat("c02_counters_checked", 1)
+				ws := wantSent[rid]
+				if hs.State != 5 && hs.State != 6 {
+					ws = 0 // not (or no longer) sent: Unsend resets the counter
+				}
+				if hs.Err != "" {
+					// an error placeholder is re-sent with every populate and has
+					// no references of its own: its sent counter decides nothing
+					ws = hs.IndirectSent
+				}
+				if hs.Indirect != wantInd[rid] || hs.IndirectSent != ws {
+					sig := "refCountDrift"
+					if hs.Indirect == wantInd[rid] {
+						sig = "sentCountDrift"
+					}
+					// finding C: a deleted subscription that is populated again is
+					// re-sent, counting its references a second time
+					revived := h.hasNote("populate.deleted", c.CID, rid)
+					unsent := h.hasNote("sub.eventUnsent", c.CID, rid)
+					for prid, ps := range snap.Subs {
+						if _, ok := ps.Refs[rid]; ok {
+							revived = revived || h.hasNote("populate.deleted", c.CID, prid)
+							unsent = unsent || h.hasNote("sub.eventUnsent", c.CID, prid)
+						}
+					}
+					if h.driftTag == nil {
+						h.driftTag = map[string]string{}
+					}
+					if prev := h.driftTag[c.CID+" "+rid]; prev != "" && !revived && !unsent {
+						// the same counter was already off at an earlier quiescent
+						// point, for a known reason: the offset stays
+						sig += prev
+					} else if revived {
+						sig += ".populateDeleted"
+						h.driftTag[c.CID+" "+rid] = ".populateDeleted"
+					} else if unsent {
+						h.driftTag[c.CID+" "+rid] = ".eventWhileUnsent"
+						// finding E: the affected subscription, or one referring to
+						// it, processed an event while marked as not sent (hook note
+						// sub.eventUnsent): a reference it added is counted as sent,
+						// a delete makes it count as a sent parent again
+						sig += ".eventWhileUnsent"
+					}
+					h.viol(Viol{Prop: "C02", Conn: c.Idx, T: now, RID: rid, Sig: sig,
+						Msg: fmt.Sprintf("subscription %s counts indirect=%d indirectsent=%d but %d subscriptions refer to it, %d of them sent; all subs: %s", rid, hs.Indirect, hs.IndirectSent, wantInd[rid], wantSent[rid], subsSummary(snap))})
+				}
+			}
 			// --- C02 cross-check: what the gateway believes the client holds
 			for rid, hs := range snap.Subs {
 				_, held := rc.Cache[rid]
@@ -1032,7 +1101,10 @@ func (h *histRun) checkQuiescent(final bool) {
 			continue
 		}
 		for _, v := range rc.Viol {
-			if v.Prop == "C02" && (v.Sig == "strayEvent" || v.Sig == "dangling") && (h.hasNote("sub.unsend", c.CID, v.RID) || (v.Holder != "" && h.hasNote("sub.unsend", c.CID, v.Holder))) {
+			if v.Prop == "C02" && (v.Sig == "strayEvent" || v.Sig == "dangling") && (h.hasNote("sub.unsend", c.CID, v.RID) || (v.Holder != "" && h.hasNote("sub.unsend", c.CID, v.Holder) && !h.worldHasRef(v.Holder, v.RID))) {
+				// finding A/E: the resource itself was un-sent, or the holder was
+				// re-sent with a stale snapshot whose reference the service's
+				// current state no longer has
 				v.Sig += ".afterUnsend"
 			} else if sr := rc.LostInStray[v.RID]; v.Prop == "C02" && sr != "" && h.hasNote("sub.unsend", c.CID, sr) {
 				// consequence of an ignored stray event (finding E) that carried this resource
@@ -1043,7 +1115,9 @@ func (h *histRun) checkQuiescent(final bool) {
 			if v.Prop == "C02" && v.DropT > 0 && rc.TargetPendingAt(v.RID, v.DropT) {
 				v.Sig += ".droppedWhilePending"
 			}
-			if h.hasNote("populate.deleted", c.CID, v.RID) {
+			if h.hasNote("populate.deleted", c.CID, v.RID) || (v.Prop == "C02" && v.Sig == "dangling" && v.Holder != "" && h.hasNote("populate.deleted", c.CID, v.Holder)) {
+				// finding C: the resource, or the holder whose dead snapshot
+				// names it, was revived after its delete event
 				v.Sig += ".populateDeleted"
 			}
 			h.viol(v)
@@ -1269,7 +1343,7 @@ func subsSummary(snap server.VerifConnSnap) string {
 	var sb strings.Builder
 	for _, rid := range rids {
 		hs := snap.Subs[rid]
-		fmt.Fprintf(&sb, "[%s d=%d i=%d is=%d st=%d refs=%v] ", rid, hs.Direct, hs.Indirect, hs.IndirectSent, hs.State, hs.Refs)
+		fmt.Fprintf(&sb, "[%s d=%d i=%d is=%d st=%d err=%q refs=%v] ", rid, hs.Direct, hs.Indirect, hs.IndirectSent, hs.State, hs.Err, hs.Refs)
 	}
 	return sb.String()
 }
@@ -1317,6 +1391,18 @@ func (h *histRun) hadDelete(rid string) bool {
 	}
 	for _, ev := range wr.Stream {
 		if ev.Kind == "delete" {
+			return true
+		}
+	}
+	return false
+}
+
+// worldHasRef reports whether the service's current state of holder has a
+// non-soft reference to rid.
+func (h *histRun) worldHasRef(holder, rid string) bool {
+	name, _ := ridName(holder)
+	for _, r := range h.w.HardRefs(name) {
+		if r == rid {
 			return true
 		}
 	}
